@@ -173,6 +173,7 @@ var handSubjects = map[string][]Subject{
 	"appendCombine":  bi("append"),
 	"rangeAppendAll": bi("append"),
 	"newDeref":       bi("new"),
+	"nilValReturn":   bi("nil"),
 	"truncateCmp":    bi("int8", "int16", "int32", "uint8", "uint16", "uint32"),
 	"badRegexp":      pf("regexp", "regexp", "Compile", "MustCompile"),
 	"regexpPattern":  pf("regexp", "regexp", "Compile", "CompilePOSIX", "MustCompile", "MustCompilePosix", "MustCompilePOSIX"),
@@ -286,6 +287,9 @@ func CheckC20(p *Pkg, f *File, checker string, d Diag) *C20Finding {
 	if len(subs) == 0 || !d.Pos.IsValid() || Fset.File(d.Pos) != Fset.File(f.AST.Pos()) {
 		return nil
 	}
+	if checker == "nilValReturn" {
+		return checkNilSubject(p, f, d)
+	}
 	bySpelling := map[string]Subject{}
 	for _, s := range subs {
 		bySpelling[s.Spelling()] = s
@@ -365,6 +369,39 @@ func CheckC20(p *Pkg, f *File, checker string, d Diag) *C20Finding {
 		return nil
 	}
 	return &C20Finding{Subject: sub.Family(), Spelled: sp, Resolves: describeObj(qobj) + " ." + name.Name}
+}
+
+// checkNilSubject: nilValReturn's subject is the identifier spelled nil in the condition `x == nil` of the
+// if statement whose body holds the reported return; it must be the predeclared nil.
+func checkNilSubject(p *Pkg, f *File, d Diag) *C20Finding {
+	var inner *ast.IfStmt
+	ast.Inspect(f.AST, func(n ast.Node) bool {
+		if n == nil {
+			return false
+		}
+		if _, isFile := n.(*ast.File); !isFile && (n.Pos() > d.Pos || n.End() <= d.Pos) {
+			return false
+		}
+		if is, ok := n.(*ast.IfStmt); ok && is.Body.Pos() <= d.Pos && d.Pos < is.Body.End() {
+			inner = is
+		}
+		return true
+	})
+	if inner == nil {
+		return nil
+	}
+	be, ok := inner.Cond.(*ast.BinaryExpr)
+	if !ok {
+		return nil
+	}
+	id, ok := be.Y.(*ast.Ident)
+	if !ok || id.Name != "nil" {
+		return nil
+	}
+	if _, isNil := p.Info.Uses[id].(*types.Nil); isNil {
+		return nil
+	}
+	return &C20Finding{Subject: "nil", Spelled: "nil", Resolves: describeObj(p.Info.Uses[id])}
 }
 
 func describeObj(o types.Object) string {
